@@ -265,6 +265,8 @@ def contingency_maps(tree, site, T):
 
 def event_tables(tree, site, T):
     """ThresholdEventOperator.make_event_tables / make_contingency_manager -> (fcst_events, obs_events)"""
+    tree = SelfToName().visit(copy.deepcopy(tree))      # self.default_event_threshold -> default_event_threshold
+    ast.fix_missing_locations(tree)
     fn = T.find_function(tree, "ThresholdEventOperator." + site["method"])
     X = make_expr(T, {"fcst": "num", "obs": "num", "event_threshold": "optnum", "op_fn": "optop",
                       "default_event_threshold": "num", "default_op_fn": "op"})
@@ -279,7 +281,7 @@ def event_tables(tree, site, T):
             # if X is None: X = self.default_X       (also: `if not X:` -- Python truthiness)
             a = st.body[0]
             n = a.targets[0].id if isinstance(a.targets[0], ast.Name) else None
-            if n not in ("event_threshold", "op_fn") or T.src(a.value) != "self.default_" + n:
+            if n not in ("event_threshold", "op_fn") or T.src(a.value) != "default_" + n:
                 raise T.Unsupported("fallback " + T.src(st)[:80])
             t = X.ty[n]
             if T.src(st.test) == f"{n} is None":
